@@ -24,6 +24,9 @@ def model_regex(d, for_ambiguity=False):
     for tok in d["tokens"]:
         if tok[0] == "lit":
             parts.append(re.escape(tok[1]))
+        elif tok[0] == "opt":
+            rx = {"d": r"\d+", "f": r"\d+\.\d+", "w": r"[A-H]+", "": r"[K-P]+", "Color": r"[A-Z]+"}[tok[2]]
+            parts[-1] = parts[-1] + "(?: %s (%s))?" % (re.escape(tok[3]), rx)
         else:
             ftype = tok[2]
             if d["matcher"] == "re":
@@ -278,14 +281,14 @@ def evaluate(seed, hashseed, root, stats):
             exp = []
             gi = 0
             for tok in chosen["tokens"]:
-                if tok[0] != "fld":
+                if tok[0] not in ("fld", "opt"):
                     continue
                 gi += 1
                 raw = mm.group(gi)
-                if tok[2] == "Color" and raw == "BAD" and chosen["matcher"] != "re":
+                if tok[0] == "fld" and tok[2] == "Color" and raw == "BAD" and chosen["matcher"] != "re":
                     conv_fail = True
                 exp.append({"name": tok[1] or None, "start": mm.start(gi), "end": mm.end(gi), "original": raw,
-                            "value": None if conv_fail else W.convert_value(tok[2], raw, chosen["matcher"])})
+                            "value": None if (conv_fail or raw is None) else W.convert_value(tok[2], raw, chosen["matcher"])})
             is_err = type(match).__name__ == "MatchWithError"
             if conv_fail != is_err:
                 viol("converter-fault-status", "match-with-error:%s" % is_err, text=text)
@@ -295,7 +298,7 @@ def evaluate(seed, hashseed, root, stats):
             got_args = [{"name": a.name, "start": a.start, "end": a.end, "original": a.original, "value": a.value}
                         for a in match.arguments]
             for a in got_args:
-                if text[a["start"]:a["end"]] != a["original"]:
+                if a["original"] is not None and text[a["start"]:a["end"]] != a["original"]:
                     viol("span-mismatch", chosen["matcher"], text=text, arg=a)
                     break
             else:
